@@ -1,7 +1,7 @@
 (* C19 — Extract transfers at most (1+overfetch) x needed tile bytes, each byte once. *)
 From Coq Require Import NArith ZArith List.
 Import ListNotations.
-From PM Require Import Model.Varint Model.Directory Model.F32 Model.Extract Proofs.Extract.
+From PM Require Import Model.Varint Model.Directory Model.F32 Model.Extract Proofs.Extract Proofs.ExtractMono.
 From Flocq Require Import IEEE754.Bits.
 Open Scope N_scope.
 
@@ -28,11 +28,21 @@ Definition overlap (p q:plan) : bool := (p_src p <? p_src q + p_len q) && (p_src
 Theorem C19_no_double_refuted : exists ps, ps = merge_with_budget d15_ranges 150 /\ plan_ok d15_ranges ps 150 = true /\
   match ps with [p; q] => overlap p q = true | _ => False end.
 Proof. eexists. split; [reflexivity|]. split; vm_compute; reflexivity. Qed.
-(* partial: for monotone, non-overlapping source ranges the requests of ok plans are pairwise disjoint — each plan
-   reads [src of its first range, end of its last range) and consecutive plans are separated by an unmerged gap.
-   (checked on every run by the oracle for the monotone inputs; the Coq statement is not proved yet) *)
+(* what does hold: for source ranges that are monotone and non-overlapping in the source (every extract of an archive without shared
+   contents, and every extract that keeps the first user of each shared content) the requests of accepted plans are in ascending order
+   and the next one starts at or after the end of the previous one: no source byte is requested twice *)
+Theorem C19_no_double_monotone : forall rs ps budget, plan_ok rs ps budget = true -> src_mono rs -> plan_chain ps.
+Proof.
+  intros rs ps budget H Hm. unfold plan_ok in H. apply Bool.andb_true_iff in H. destruct H as [H Hall]. apply Bool.andb_true_iff in H. destruct H as [Hc _].
+  eapply plans_chain; eassumption.
+Qed.
+Theorem C19_chain_disjoint : forall pre p mid q post, plan_chain (pre ++ p :: mid ++ q :: post) ->
+  (forall x, In x (pre ++ p :: mid ++ q :: post) -> 0 < p_len x) -> p_src p + p_len p <= p_src q.
+Proof. exact chain_disjoint. Qed.
 
 Print Assumptions C19_budget.
 Print Assumptions C19_zero.
 Print Assumptions C19_ratio_refuted.
 Print Assumptions C19_no_double_refuted.
+Print Assumptions C19_no_double_monotone.
+Print Assumptions C19_chain_disjoint.
